@@ -25,6 +25,8 @@ func c11(c *eng.Ctx, r *eng.Report) {
 		"R11.9 a write attempt in read-only context surfaces as ErrWriteProtection: Run refuses rows flagged `writes` under the interpreter-wide in.readOnly flag (not the frame argument) before operation.execute, and the flag is sticky across nested frames (shared with C12). " +
 		"R11.10 callGas/authCallGas return min(request, a - a/64) with a = available - base, and the four call-family gas functions call callGas(true, contract.Gas, …). " +
 		"R11.11 a precompile runs only after the caller paid for it, and the price compared with the supplied gas is RequiredGas(input) itself — no unchecked arithmetic between pricing and the affordability test (the precompiles size their allocations from the input on the strength of that price: MODEXP allocates what the header announces); " +
+		"R11.17 the price table a fork adjusts belongs to one interpreter: every value stored in EVMInterpreter.jumpTable is the result of a newInstructionSet() call made for that interpreter, and newInstructionSet takes no operation from a package-level variable — doProposal014/022/026 write through the table's *operation pointers (constantGas *= 30), so a table or entry shared between interpreters is re-priced once per EVM until the prices wrap to zero and gas no longer bounds a loop; " +
+		"R11.16 no function of the vm package reads a byte of the running contract's code at a position it has not compared with the code length: every index into Contract.Code by a non-constant position p+k is dominated by a guard on the same p that implies p+k < len(code) — `p+a < len` with k <= a, or `len-p >= m` (p the untouched program counter, which is below len when a handler runs) with k < m; a truncated PUSH at the end of the code reads zeroes, it does not index past the end; " +
 		"R11.12 no opcode handler slices a buffer with a bound that is the unchecked 64-bit sum or product of operand-derived values (`buf[off:off+len]` wraps for off near 2^64 and the slice expression panics): such bounds come out of 256-bit arithmetic with Uint64WithOverflow, SafeAdd/SafeMul, or the clamping accessor getData; " +
 		"R11.13 every modular exponentiation in package vm whose modulus comes from the input runs only after the modulus was tested non-zero (big.Int.Exp with m == 0 is plain exponentiation: priced as modular work it neither terminates nor bounds its allocation); " +
 		"R11.14 a 256-bit operand is unsigned: outside the signed opcodes (SAR, SDIV, SMOD, SLT, SGT, SIGNEXTEND), wherever package vm tests (*uint256.Int).Sign() it is for (in)equality with zero — Sign() returns -1 for every value of 2^255 or more, so `Sign() > 0` takes such a value for zero (a CALLCODE carrying it is priced as a call without value yet still receives the stipend: gas is minted and a loop never runs out); " +
@@ -44,6 +46,8 @@ func c11(c *eng.Ctx, r *eng.Report) {
 	c11SixtyThreeSixtyFourths(c, r)
 	c11PrecompileGas(c, r)
 	c11SliceBounds(c, r, rows)
+	c11CodeIndexGuarded(c, r)
+	c11OwnJumpTable(c, r)
 	c11ModulusNonZero(c, r)
 	c11UnsignedSign(c, r)
 	c11CodeHashOfCode(c, r)
@@ -1309,4 +1313,257 @@ func c11CodeHashOfCode(c *eng.Ctx, r *eng.Report) {
 		}
 	}
 	r.Check(n >= 3, rule, "code-hash-of-code:sites", "", fmt.Sprintf("%d SetCallCode sites", n), fmt.Sprintf("only %d SetCallCode sites found", n))
+}
+
+// ---- R11.16: indexes into Contract.Code are guarded by the code length.
+
+type linForm struct {
+	root string          // canonical name of the variable part
+	off  int64           // constant added to it
+	load ssa.Instruction // the load the root was read by (nil for SSA values)
+	addr ssa.Value
+}
+
+func linOf(v ssa.Value, d int) (linForm, bool) {
+	if d > 8 {
+		return linForm{}, false
+	}
+	switch x := v.(type) {
+	case *ssa.Convert:
+		return linOf(x.X, d+1)
+	case *ssa.ChangeType:
+		return linOf(x.X, d+1)
+	case *ssa.BinOp:
+		if x.Op == token.ADD || x.Op == token.SUB {
+			if k, ok := eng.ConstInt(x.Y); ok {
+				l, ok2 := linOf(x.X, d+1)
+				if x.Op == token.SUB {
+					k = -k
+				}
+				l.off += k
+				return l, ok2
+			}
+			if k, ok := eng.ConstInt(x.X); ok && x.Op == token.ADD {
+				l, ok2 := linOf(x.Y, d+1)
+				l.off += k
+				return l, ok2
+			}
+		}
+		return linForm{root: fmt.Sprintf("val:%p", v)}, true
+	case *ssa.UnOp:
+		if x.Op == token.MUL {
+			return linForm{root: "load:" + eng.Desc(x.X), load: x, addr: x.X}, true
+		}
+	case *ssa.Const:
+		return linForm{}, false
+	}
+	return linForm{root: fmt.Sprintf("val:%p", v)}, true
+}
+
+func isCodeLen(v ssa.Value) bool {
+	for {
+		if cv, ok := v.(*ssa.Convert); ok {
+			v = cv.X
+			continue
+		}
+		break
+	}
+	call, ok := v.(*ssa.Call)
+	if !ok {
+		return false
+	}
+	if b, isB := call.Call.Value.(*ssa.Builtin); !isB || b.Name() != "len" {
+		return false
+	}
+	return isCodeSlice(call.Call.Args[0])
+}
+
+func isCodeSlice(v ssa.Value) bool {
+	v = eng.ResolveLocal(v)
+	if u, ok := v.(*ssa.UnOp); ok && u.Op == token.MUL {
+		if t, f := eng.FieldOf(u.X); f == "Code" && strings.HasSuffix(t, "Contract") {
+			return true
+		}
+	}
+	return false
+}
+
+// sameVar: two reads of one variable with no write to it in between.
+func sameVar(fn *ssa.Function, a, b linForm) bool {
+	if a.root != b.root {
+		return false
+	}
+	if a.load == nil || b.load == nil {
+		return a.load == nil && b.load == nil
+	}
+	for _, blk := range fn.Blocks {
+		for _, in := range blk.Instrs {
+			st, ok := in.(*ssa.Store)
+			if !ok || eng.Desc(st.Addr) != eng.Desc(a.addr) {
+				continue
+			}
+			if eng.Reaches(a.load, st) && eng.Reaches(st, b.load) {
+				return false
+			}
+		}
+	}
+	return true
+}
+
+func c11CodeIndexGuarded(c *eng.Ctx, r *eng.Report) {
+	const rule = "R11.16"
+	r.Min(rule, 3)
+	for _, fn := range c.PkgFuncs("vm") {
+		i := 0
+		for _, b := range fn.Blocks {
+			for _, in := range b.Instrs {
+				ia, ok := in.(*ssa.IndexAddr)
+				if !ok || !isCodeSlice(ia.X) {
+					continue
+				}
+				key := fmt.Sprintf("code-index:%s#%d", eng.FuncName(fn), i)
+				i++
+				idx, okL := linOf(ia.Index, 0)
+				if !okL {
+					r.Fail(rule, key, c.Pos(ia.Pos()), eng.FuncName(fn)+" indexes the contract code at the constant position "+eng.Desc(ia.Index)+" without a length comparison the rule recognises")
+					continue
+				}
+				// has the program counter (or whatever the root is) been written before the guard?
+				proven, why := false, ""
+				for _, cd := range eng.EdgeConds(b) {
+					m, isM := cd.Cmp()
+					if !isM {
+						continue
+					}
+					x, y, op := m.X, m.Y, m.Op
+					if isCodeLen(x) && !isCodeLen(y) { // mirror so that the length is on the right
+						x, y = y, x
+						switch op {
+						case token.GTR:
+							op = token.LSS
+						case token.GEQ:
+							op = token.LEQ
+						case token.LSS:
+							op = token.GTR
+						case token.LEQ:
+							op = token.GEQ
+						}
+					}
+					if isCodeLen(y) {
+						g, okG := linOf(x, 0)
+						if !okG || !sameVar(fn, g, idx) {
+							continue
+						}
+						switch op {
+						case token.LSS: // p+a < L
+							if idx.off <= g.off {
+								proven = true
+							}
+						case token.LEQ: // p+a <= L
+							if idx.off <= g.off-1 {
+								proven = true
+							}
+						}
+						why = eng.Desc(cd.V)
+						continue
+					}
+					// (L - p) cmp m
+					sub, isSub := x.(*ssa.BinOp)
+					mconst, isK := eng.ConstInt(y)
+					if !isSub || sub.Op != token.SUB || !isK || !isCodeLen(sub.X) {
+						continue
+					}
+					g, okG := linOf(sub.Y, 0)
+					if !okG || !sameVar(fn, g, idx) || g.off != 0 {
+						continue
+					}
+					// p must still be the value the handler was entered with
+					if g.load != nil {
+						written := false
+						for _, blk := range fn.Blocks {
+							for _, in2 := range blk.Instrs {
+								if st, isSt := in2.(*ssa.Store); isSt && eng.Desc(st.Addr) == eng.Desc(g.addr) && eng.Reaches(st, g.load) {
+									written = true
+								}
+							}
+						}
+						if written {
+							continue
+						}
+					}
+					why = eng.Desc(cd.V)
+					switch op {
+					case token.GEQ, token.EQL: // L-p >= m  =>  p+m <= L
+						if idx.off <= mconst-1 {
+							proven = true
+						}
+					case token.GTR: // L-p > m
+						if idx.off <= mconst {
+							proven = true
+						}
+					}
+				}
+				msg := eng.FuncName(fn) + " reads the contract code at " + eng.Desc(ia.Index) + " and no dominating comparison with the code length implies that position is inside the code"
+				if why != "" {
+					msg += " (the guard in force, " + why + ", allows the position to equal or pass the length)"
+				}
+				r.Check(proven, rule, key, c.Pos(ia.Pos()), "position compared with len(code) on every path to the read", msg+": code that ends in a truncated PUSH — 0x61, 0x6112 — makes the interpreter index out of range, and the panic unwinds through EVM.Call into the host instead of the frame ending normally")
+			}
+		}
+	}
+}
+
+// c11OwnJumpTable: see R11.17.
+func c11OwnJumpTable(c *eng.Ctx, r *eng.Report) {
+	const rule = "R11.17"
+	r.Min(rule, 2)
+	n := 0
+	for _, fn := range c.PkgFuncs("vm") {
+		for _, b := range fn.Blocks {
+			for _, in := range b.Instrs {
+				st, ok := in.(*ssa.Store)
+				if !ok {
+					continue
+				}
+				if t, f := eng.FieldOf(st.Addr); f != "jumpTable" || !strings.HasSuffix(t, "EVMInterpreter") {
+					continue
+				}
+				n++
+				call, isCall := eng.ResolveLocal(st.Val).(*ssa.Call)
+				fresh := isCall && call.Call.StaticCallee() != nil && call.Call.StaticCallee().Name() == "newInstructionSet"
+				r.Check(fresh, rule, fmt.Sprintf("own-table:%s", eng.FuncName(fn)), c.Pos(st.Pos()), "the interpreter's table is built by newInstructionSet() for it", eng.FuncName(fn)+" installs "+eng.Desc(st.Val)+" as the interpreter's jump table, not a table built for this interpreter: copying a JumpTable copies 256 *operation pointers, and the fork adjusters write through them — every EVM created at a Proposal026 height multiplies the shared constant gas by 30 again (330, 9900, 297000 … gas for the same code; zero after 64 EVMs, when an infinite loop costs nothing)")
+			}
+		}
+	}
+	if n == 0 {
+		r.Fail(rule, "own-table:none", "", "no store to EVMInterpreter.jumpTable found: the rule has lost its anchor")
+	}
+	nis := c.Func("vm", "newInstructionSet")
+	if !r.Anchor(nis != nil, rule, "vm.newInstructionSet") {
+		return
+	}
+	bad := ""
+	cone := c.ConeOf([]*ssa.Function{nis}, func(fn *ssa.Function) bool { return strings.HasSuffix(eng.FuncPkgPath(fn), "/src/vm") })
+	for _, fn := range cone.Sorted() {
+		if !strings.HasSuffix(eng.FuncPkgPath(fn), "/src/vm") {
+			continue
+		}
+		for _, b := range fn.Blocks {
+			for _, in := range b.Instrs {
+				u, ok := in.(*ssa.UnOp)
+				if !ok || u.Op != token.MUL {
+					continue
+				}
+				g, isG := u.X.(*ssa.Global)
+				if !isG {
+					continue
+				}
+				ts := g.Type().String()
+				if strings.Contains(ts, "vm.operation") || strings.Contains(ts, "vm.JumpTable") {
+					bad = g.Name() + " at " + c.Pos(u.Pos())
+				}
+			}
+		}
+	}
+	r.Check(bad == "", rule, "fresh-operations:newInstructionSet", c.Pos(nis.Pos()), "newInstructionSet reads no package-level table or operation", "newInstructionSet takes entries from the package-level "+bad+": the *operation values are then shared by every interpreter and the fork adjusters re-price them once per EVM")
 }
